@@ -77,8 +77,24 @@ def case_real_space(ctx, rng, wd):
     info = lambda: {"kind": kind, "d": d, "N": N, "cell": cellkind, "ppp": ppp, "H": cell["H"], "positions": pos if N <= 14 else "omitted",  # noqa: E731
                     "field": fld if N <= 14 else "omitted", "lists": lists if N <= 14 else "omitted"}
     ctx.case(f"real/{kind}/{d}D/{cellkind}", pos, fld, lists, ppp, nontrivial=True, sample={"kind": kind, "d": d, "N": N, "ppp": ppp})
+    # the field in the representation the caller happens to hold it in (R7): C order, Fortran order (a transposed (d, N) table),
+    # a strided column block, read-only
+    rep = ["c", "fortran", "strided", "readonly", "c"][(N + d + len(kind)) % 5]
+
+    def fresh():
+        if rep == "fortran":
+            return np.asfortranarray(fld)
+        if rep == "strided":
+            big = np.zeros((N, 2 * d + 1))
+            big[:, 1::2] = fld
+            return big[:, 1::2]
+        c = fld.copy()
+        if rep == "readonly":
+            c.setflags(write=False)
+        return c
+    ctx.count("field_rep_" + rep)
     # participation ratio
-    ok, pr = ctx.call("participation_ratio", V.participation_ratio, fld.copy(), data=info)
+    ok, pr = ctx.call("participation_ratio", V.participation_ratio, fresh(), data=info)
     if ok:
         e2 = (fld ** 2).sum(axis=1)
         exp = e2.sum() ** 2 / (N * (e2 ** 2).sum())
@@ -93,17 +109,17 @@ def case_real_space(ctx, rng, wd):
             ctx.close("participation_ratio", pr, 1.0 / N, "participation_ratio/localised", rtol=1e-10, what="one-particle field => 1/N", data=info, n=1)
     # alignment, phase quotient
     dots = [np.array([fld[i] @ fld[j] for j in lists[i]]) for i in range(N)]
-    ok, al = ctx.call("local_vector_alignment", V.local_vector_alignment, fld.copy(), fn, data=info)
+    ok, al = ctx.call("local_vector_alignment", V.local_vector_alignment, fresh(), fn, data=info)
     if ok:
         ctx.close("alignment", al, np.array([x.mean() for x in dots]), "local_vector_alignment/value", rtol=1e-10, atol=1e-13, what="mean neighbour dot product", data=info)
     den = sum(np.abs(x).sum() for x in dots)
     if den > 1e-12:
-        ok, pq = ctx.call("phase_quotient", V.phase_quotient, fld.copy(), fn, data=info)
+        ok, pq = ctx.call("phase_quotient", V.phase_quotient, fresh(), fn, data=info)
         if ok:
             ctx.close("phase_quotient", pq, sum(x.sum() for x in dots) / den, "phase_quotient/value", rtol=1e-10, atol=1e-13, what="phase quotient", data=info, n=1)
             ctx.check("phase_quotient", -1 - 1e-12 <= pq <= 1 + 1e-12, "phase_quotient/bounds", f"phase quotient {pq} outside [-1,1]", info)
     # divergence / curl
-    ok, dc = ctx.call("divergence_curl", V.divergence_curl, snap, fld.copy(), ppp, fn, data=info)
+    ok, dc = ctx.call("divergence_curl", V.divergence_curl, snap, fresh(), ppp, fn, data=info)
     if ok:
         div = dc if d == 2 else dc[0]
         ediv = np.array([np.mean([vec[i, j] @ (fld[j] - fld[i]) for j in lists[i]]) for i in range(N)])
